@@ -11,13 +11,28 @@ TRUSTED = ['translator t_step.py (step.c / robsd-step.c: field table, strtonum b
            'modelled, not verified: strtoll (decimal syntax re-written in Gallina), fopen("w") truncation, the file system; ASSUMED about libc: a 4096-byte stdio block, '
            'fwrite writes whole blocks itself and leaves the tail to fclose (compared with the implementation at byte granularity around the block boundaries); '
            'a refusing file system is RLIMIT_FSIZE = k bytes with SIGXFSZ ignored (tools/c01_fsize.c)',
-           'qsort is modelled as an insertion sort: agreement is claimed for distinct ids; rows of equal id (after a renumbering step= argument) are compared as a multiset']
+           'qsort is modelled as an insertion sort: agreement is claimed for distinct ids; rows of equal id (after a renumbering step= argument) are compared as a multiset',
+           'CAPPED by the cost of the extracted model: StepDefs.lex_value is quadratic in the length of a field (109 s for 64 KiB), so the model parses files with fields up to 8193 bytes '
+           '(and answers only a few reads above 1100 bytes); longer values (65535, 65536, 131000 bytes - the kernel allows 128 KiB - 1 per argument) are judged by the dictionary oracle '
+           'on every write and read, and the write that introduces them is still compared byte for byte; StepDefs.select_row / StepSpec.spec_read use Z.to_nat (pos - 1), so read positions '
+           'above 10^6 are compared with the fixed answer (exit 1, nothing printed) instead',
+           'the starting-file oracle (hand-made files, no history to hand to the dictionary) reads the rows before and after through the MODEL\'s parser (driver command canon)']
 
 FIELDS = ['step', 'name', 'exit', 'duration', 'delta', 'log', 'user', 'time', 'skip']
 INTF = ['exit', 'duration', 'delta', 'time', 'skip']
 STRF = ['name', 'log', 'user']
 GOOD_INT = [b'0', b'1', b'-1', b'124', b'255', b'1666666666', b'9223372036854775807', b'-9223372036854775808', b' 7', b'+7', b'007', b'\t-3']
-BAD_INT = [b'9223372036854775808', b'-9223372036854775809', b'7x', b'', b'1e3', b'--1', b'0x10', b'5 ', b'-', b'+']
+# boundary values of the integer columns (a column narrowed to int / unsigned / long shows at these): +-2^31, 2^32, +-2^63 and their neighbours
+LIMIT_INT = [b'2147483647', b'2147483648', b'-2147483648', b'-2147483649', b'4294967295', b'4294967296', b'4294967297', b'-4294967296',
+             b'9223372036854775806', b'-9223372036854775807', b'9223372036854775807', b'-9223372036854775808']
+GOOD_INT = GOOD_INT + LIMIT_INT
+BAD_INT = [b'9223372036854775808', b'-9223372036854775809', b'7x', b'', b'1e3', b'--1', b'0x10', b'5 ', b'-', b'+',
+           b'18446744073709551615', b'18446744073709551616', b'18446744073709551617', b'-18446744073709551615']
+# arguments whose key is a proper prefix / an extension / a case variant of a field name (a lookup by strncmp with the argument's
+# length, or case-insensitively, would accept them), and separators around the key
+BAD_KEYS = [b'bogus=1', b'noequals', b'=v', b'Name=x', b'name', b'nam=x', b'names=x', b'n=x', b'exi=1', b'exit0=1', b'e=1', b'lo=x', b'logs=x',
+            b'l=', b's=1', b'ste=1', b'steps=1', b'ti=5', b'timer=5', b'd=1', b'del=1', b'dur=1', b'us=root', b'users=root', b'NAME=x', b'name =x',
+            b' name=x', b'EXIT=0', b'=', b'==', b'skip', b'skipp=1', b'ski=1']
 GOOD_STR = [b'one', b'a b', b'/dev/null', b'x=y', b'=', b'\xc3\xbc', b'{}', b'}', b'end', b'root', b'a;b', b'"q"', b"'", b' lead', b'trail ', b'\r']
 BAD_STR = [b'a,b', b'a\nb', b'', b'${user}', b'$x', b',', b'\n', b'$', b'${name}', b'x${', b'a$b']
 IDS = [b'1', b'2', b'3', b'4', b'10', b'-1', b'-5', b'2147483647', b'-2147483647']
@@ -62,7 +77,7 @@ def gen_write(rng, known_ids):
         f = rng.choice(FIELDS[1:])
         kvs.insert(rng.randint(0, len(kvs)), f.encode() + b'=' + rng.choice(BAD_INT if f in INTF else BAD_STR if f != 'log' else [b'a,b', b'$', b'l\n']))
     elif e < 0.14:
-        kvs.insert(rng.randint(0, len(kvs)), rng.choice([b'bogus=1', b'noequals', b'=v', b'Name=x', b'name']))
+        kvs.insert(rng.randint(0, len(kvs)), rng.choice(BAD_KEYS))
     elif e < 0.20:                # repeated key: last wins
         f = rng.choice(['name', 'exit', 'log'])
         kvs.append(f.encode() + b'=' + rng.choice(GOOD_INT if f in INTF else GOOD_STR))
@@ -86,7 +101,411 @@ START_FILES = [b''] * 24 + [
                b'bogus\nx\n', b'\n', b',\n', b'step,,name\n']
 
 
+
+# ---------------------------------------------------------------------------------------------------------------------
+# Boundary SIZE / SHAPE classes (lengths, counts, integer limits, related names, file shapes, stdio block boundaries).
+# Every class is generated with a small probability by gen_history (gen_boundary) and has one deterministic case under
+# corpus/C01/b*.json; classes_of() recognises the classes from the CONTENT of a case, so that generated and corpus cases
+# are counted alike (`class: ...` lines of the input distribution).
+# Caps (measured on the extracted model, st_driver):
+#  * StepDefs.lex_value appends one byte at a time (acc ++ [c]): parsing a file is quadratic in the longest field -
+#    4096 bytes 0.1 s, 8192 0.4 s, 16384 2.1 s, 65536 109 s per parse.  The model is therefore asked to PARSE only files whose
+#    longest field is at most MODEL_FIELD_CAP bytes, for files with a field above MODEL_LIGHT bytes only a few of the reads
+#    (name and log at positions 1, 2, -1 and the first read by name), above MODEL_LIGHT2 only those at position 2;
+#    beyond the cap the writes whose `before` is small are still compared byte for byte (set_keyval is linear) and the
+#    two-sided dictionary oracle (linear: it never parses a file) judges every write and read.
+#  * StepDefs.select_row / StepSpec.spec_read compute `Z.to_nat (pos - 1)` (a unary nat once extracted): positions above
+#    MODEL_POS_CAP are not given to the model or the oracle; with fewer rows than that the answer is fixed (exit 1, no output)
+#    and compared directly.
+#  * kernel: one argv string holds at most 128 KiB - 1 bytes (MAX_ARG_STRLEN), so `name=<value>` stops at 131000 here.
+HDR = b'step,name,exit,duration,delta,log,user,time,skip\n'
+LENS = [1, 254, 255, 256, 1023, 1024, 1025, 4095, 4096, 4097, 8191, 8192, 8193, 65535, 65536, 131000]
+MODEL_FIELD_CAP = 8193
+MODEL_LIGHT = 1100
+MODEL_LIGHT2 = 4097
+MODEL_POS_CAP = 1000000
+ROW_COUNTS = [15, 16, 17, 31, 32, 33, 63, 64, 65, 255, 256]
+COUNT_CLASSES = [0, 1] + ROW_COUNTS + [257]
+BLOCK = 4096
+NAME_FAMILY = [b'one', b'on', b'onee', b'One', b'ONE', b'one ', b' one', b'one=', b'=one', b'one=1', b'one"', b'"one"', b'one\r', b'one.', b'one-',
+               b'one/', b'o', b'on\xc3\xa9', b'one\x7f', b'onf', b'ond']
+NAME_PROBES = [b'one,', b'one\n', b'', b'one\n1', b',', b'one,1', b'\r', b'ONe']
+PAIR_IDS = [(-1073741824, 1073741824), (-2147483647, 1), (-2147483647, 2147483647), (-1, 2147483647), (1, 2147483647), (-2147483647, -1),
+            (1073741823, -1073741825), (2147483646, -2), (-2147483646, 2), (1, -2147483647)]
+START_IDS = [[1, 4294967297], [4294967297, 1], [5, 4294967301, 8589934597], [2147483649, 1], [1, -4294967295], [-4294967295, 1],
+             [9223372036854775807, -9223372036854775808, 1], [2147483648, -2147483648], [4294967296, 2], [2, 4294967298, 1, 4294967297],
+             [-9223372036854775808, 9223372036854775807], [4294967298, 4294967297, 2, 1]]
+
+
+def pattern(n):
+    """a value of exactly n bytes, no two neighbouring 16-byte pieces alike, with a last byte that occurs nowhere else"""
+    if n <= 0:
+        return b''
+    body = b''.join(b'%07x-%07x.' % (i, n) for i in range(n // 16 + 1))
+    return body[:n - 1] + b'Z'
+
+
+def mkrow(i, name=None, log=b'', exit_=0):
+    return b'%d,%s,%d,%d,0,%s,root,17000000%02d,0\n' % (i, name if name is not None else b'step-number-%d' % i, exit_, i % 1000, log, i % 100)
+
+
+def mkkvs(i, name=None, log=b'', exit_=0):
+    """the key=value arguments that make robsd-step -W write exactly mkrow(i, ...)"""
+    kvs = [b'name=' + (name if name is not None else b'step-number-%d' % i), b'exit=%d' % exit_, b'duration=%d' % (i % 1000), b'user=root',
+           b'time=17000000%02d' % (i % 100)]
+    if log:
+        kvs.append(b'log=' + log)
+    return kvs
+
+
+def sized_rows(marks, total, rowlen=0):
+    """[(id, name, log)] of a step file (after HDR) in which a row ends exactly at every byte offset of `marks` and the file
+    ends exactly at `total`; `rowlen` > 0 pads the names so that fewer rows are needed"""
+    rows, size, i = [], len(HDR), 0
+    for t in sorted(set(list(marks) + [total])):
+        def nm(j):
+            return (b'step-number-%d-' % j) + b'n' * max(0, rowlen - 45)
+        while size + len(mkrow(i + 1, nm(i + 1))) + len(mkrow(i + 2, nm(i + 2))) <= t:
+            i += 1
+            rows.append((i, nm(i), b''))
+            size += len(mkrow(i, nm(i)))
+        gap = t - size - len(mkrow(i + 1, nm(i + 1)))
+        if gap < 0:
+            continue                      # targets closer together than one row: the later one is dropped
+        i += 1
+        rows.append((i, nm(i), b'p' * gap))
+        size += len(mkrow(i, nm(i), b'p' * gap))
+    return rows
+
+
+def sized_file(marks, total, rowlen=0):
+    return HDR + b''.join(mkrow(i, n, l) for i, n, l in sized_rows(marks, total, rowlen))
+
+
+def W(idarg, kvs):
+    return [idarg.hex() if isinstance(idarg, bytes) else str(idarg).encode().hex(), [k.hex() for k in kvs]]
+
+
+def expand(h):
+    """Compact forms used by corpus/C01/b*.json (so that a 256-row or a 64 KiB case stays a small file):
+       'build': {'rows': N, 'order': 'asc'|'desc'|'mixed', 'marks': [...], 'total': T, 'rowlen': L}  -> writes put in front of 'writes'
+               (N plain rows, or the rows of sized_rows(marks, total)), 'fault_at' then counts from the first explicit write when
+               'fault_at_explicit' is given;
+       'start_build': {'marks': [...], 'total': T, 'rowlen': L} or {'ids': [...]} -> 'start';
+       a key=value given as {'k': 'name', 'len': N} -> name=<pattern(N)>, as {'t': 'text'} -> the text."""
+    h = dict(h)
+    ws = []
+    for idh, kvh in h.get('writes', []):
+        kk = []
+        for k in kvh:
+            if isinstance(k, dict):
+                k = ((k['k'].encode() + b'=' + pattern(k['len'])) if 'len' in k else k['t'].encode('latin1')).hex()
+            kk.append(k)
+        ws.append([idh if not isinstance(idh, dict) else idh['t'].encode('latin1').hex(), kk])
+    b = h.pop('build', None)
+    pre = []
+    if b:
+        if 'total' in b:
+            pre = [W(i, mkkvs(i, n, l)) for i, n, l in sized_rows(b.get('marks', []), b['total'], b.get('rowlen', 0))]
+        else:
+            ids = list(range(1, b['rows'] + 1))
+            if b.get('order') == 'desc':
+                ids.reverse()
+            elif b.get('order') == 'mixed':
+                ids = ids[1::2] + ids[0::2][::-1]
+            pre = [W(i, mkkvs(i)) for i in ids]
+    h['writes'] = pre + ws
+    if 'fault_at_explicit' in h:
+        h['fault_at'] = len(pre) + h.pop('fault_at_explicit')
+    sb = h.pop('start_build', None)
+    if sb:
+        h['start'] = (sized_file(sb.get('marks', []), sb['total'], sb.get('rowlen', 0)) if 'total' in sb
+                      else HDR + b''.join(mkrow(i) for i in sb['ids'])).hex()
+    if isinstance(h.get('start'), dict):
+        h['start'] = h['start']['t'].encode('latin1').hex()
+    return h
+
+
+# hand-made starting files, one per shape
+SHAPES = {
+    'header without newline': HDR[:-1],
+    'header only': HDR,
+    'last row without newline': HDR + mkrow(1) + mkrow(2)[:-1],
+    'CRLF line ends': HDR[:-1] + b'\r\n' + mkrow(1)[:-1] + b'\r\n',
+    'CRLF header only': HDR[:-1] + b'\r\n',
+    'NUL byte inside a field': HDR + b'1,o\x00ne,0,5,0,,root,100,0\n' + mkrow(2),
+    'NUL byte first': b'\x00' + HDR + mkrow(1),
+    'NUL byte after the last row': HDR + mkrow(1) + b'\x00',
+    'blank line in the middle': HDR + mkrow(1) + b'\n' + mkrow(2),
+    'blank line at the end': HDR + mkrow(1) + b'\n',
+    'header column of 5000 bytes': b'step,name,exit,duration,user,time,' + b'c' * 5000 + b'\n' + b'1,one,0,5,root,100\n',
+    'header of 65 columns': b'step,name,exit,duration,user,time' + b',log' * 59 + b'\n' + b'1,one,0,5,root,100\n' + b'2,two,0,5,root,100' + b',x' * 59 + b'\n',
+    'header of 256 columns': b'step,name,exit,duration,user,time' + b',log,delta,skip' * 83 + b',log\n' + b'1,one,0,5,root,100\n',
+    'row with one column too many': HDR + mkrow(1)[:-1] + b',extra\n',
+    'row of commas only': HDR + b',,,,,,,,\n',
+    'two rows of one id': HDR + mkrow(1, b'first') + mkrow(1, b'second'),
+    'header column that is a prefix of a field name': b'ste,name\n1,one\n',
+    'header column that differs in case': b'Step,name,exit,duration,user,time\n1,one,0,5,root,100\n',
+    'rows in descending id order': HDR + mkrow(3) + mkrow(2) + mkrow(1),
+    'id column beyond 64 bits': HDR + mkrow(1).replace(b'1,', b'9223372036854775808,', 1),
+}
+START_FILES = [b''] * 22 + START_FILES + list(SHAPES.values())
+
+
+def tokens_max(data):
+    """length of the longest field of a step file"""
+    return max((len(t) for line in data.split(b'\n') for t in line.split(b',')), default=0)
+
+
+def ids_apart(ids):
+    out = set()
+    ids = sorted(set(ids))
+    for a in ids:
+        for b_ in ids:
+            if b_ > a:
+                d = b_ - a
+                if d == 2 ** 31:
+                    out.add('two ids exactly 2^31 apart')
+                elif d == 2 ** 32:
+                    out.add('two ids exactly 2^32 apart (equal low words)')
+                elif 2 ** 31 < d < 2 ** 32:
+                    out.add('two ids between 2^31 and 2^32 apart')
+                elif d > 2 ** 32:
+                    out.add('two ids more than 2^32 apart')
+    return out
+
+
+def file_ids(data):
+    out = []
+    for line in data.split(b'\n')[1:]:
+        try:
+            out.append(int(line.split(b',')[0]))
+        except ValueError:
+            pass
+    return out
+
+
+def classes_of(h, steps, final):
+    """the boundary classes a case belongs to, from its content and from what was observed (sizes of the files it went through)"""
+    cl = set()
+    start = bytes.fromhex(h['start'])
+    for name, data in SHAPES.items():
+        if start == data:
+            cl.add('start file: ' + name)
+    if start == b'':
+        cl.add('start file: empty')
+    ids = file_ids(start)
+    related = []
+    for idh, kvh in h['writes']:
+        try:
+            ids.append(int(bytes.fromhex(idh)))
+        except ValueError:
+            pass
+        if len(idh) // 2 >= 254:
+            cl.add('id argument of %d bytes' % (len(idh) // 2))
+        for k in kvh:
+            b = bytes.fromhex(k)
+            key, eq, val = b.partition(b'=')
+            if eq and len(val) in LENS and key.decode('latin1') in FIELDS and len(val) > 1:
+                cl.add('value of %d bytes%s' % (len(val), '' if len(val) <= MODEL_FIELD_CAP else ' (beyond the model cap: oracle only once it is in the file)'))
+            if eq and len(val) == 1 and key.decode('latin1') in STRF:
+                cl.add('string value of 1 byte')
+            if eq and val == b'' and key == b'log':
+                cl.add('empty value (optional field)')
+            if eq and val == b'' and key in (b'name', b'user'):
+                cl.add('empty value (mandatory field)')
+            if eq and b'=' in val:
+                cl.add("value containing '='")
+            if len(key) >= 254:
+                cl.add('key of %d bytes' % len(key))
+            if b in BAD_KEYS and key.decode('latin1') not in FIELDS and any(f.encode().startswith(key.strip()) or key.strip().startswith(f.encode())
+                                                                            or key.strip().lower() == f.encode() for f in FIELDS) and key.strip():
+                cl.add('key that is a prefix / extension / case variant of a field name')
+            if eq and key.decode('latin1') in INTF and val.strip().lstrip(b'+') in LIMIT_INT:
+                cl.add('integer column at a 2^31 / 2^32 / 2^63 limit')
+            if eq and key.decode('latin1') in INTF and val in BAD_INT[10:]:
+                cl.add('integer column beyond 2^64')
+            if eq and key == b'name':
+                related.append(val)
+    for c in ids_apart(ids):
+        cl.add(c)
+    rs = set(related)
+    if any(a != b and b.startswith(a) for a in rs for b in rs if a):
+        cl.add('names that are prefixes of each other')
+    if any(a != b and a.lower() == b.lower() for a in rs for b in rs):
+        cl.add('names that differ in case only')
+    for ch, nm in ((b'=', "'='"), (b'"', 'a double quote'), (b' ', 'a blank'), (b'\r', 'CR'), (b',', "','"), (b'\n', 'newline')):
+        if any(ch in a for a in rs):
+            cl.add('name containing ' + nm)
+    for x in h.get('read_names', []):
+        nb = bytes.fromhex(x)
+        if nb not in rs and any(a.startswith(nb) or nb.startswith(a) or a.lower() == nb.lower() for a in rs if a and nb):
+            cl.add('read by a name that is a prefix / extension / case variant of a written name')
+    for p_ in h.get('read_pos', []):
+        if abs(p_) >= 2 ** 31 - 1:
+            cl.add('read at position +-INT_MAX')
+    # sizes of the files the commands went through
+    for st in steps:
+        for what, data in (('read', st['before']), ('written', st['after'] if st['rc'] == 0 else None)):
+            if data is None:
+                continue
+            n = max(0, data.count(b'\n') - 1) if data.startswith(HDR) else None
+            if n in COUNT_CLASSES and what == 'read':
+                cl.add('write on a file of %d rows' % n)
+            if len(data) in (BLOCK - 1, BLOCK, BLOCK + 1, 2 * BLOCK - 1, 2 * BLOCK, 2 * BLOCK + 1, 3 * BLOCK - 1, 3 * BLOCK, 3 * BLOCK + 1):
+                cl.add('file %s of exactly %d bytes' % (what, len(data)))
+            if what == 'read' and len(data) > BLOCK:
+                pos, ends = 0, set()
+                for line in data.split(b'\n')[:-1]:
+                    pos += len(line) + 1
+                    ends.add(pos)
+                for m in (BLOCK - 1, BLOCK, BLOCK + 1, 2 * BLOCK - 1, 2 * BLOCK, 2 * BLOCK + 1):
+                    if m in ends and m < len(data):
+                        cl.add('file with a row that ends at byte %d' % m)
+        if st['fault'] and st['new'] is not None and st['k'] is not None:
+            nb = (len(st['new']) + BLOCK - 1) // BLOCK
+            kk = st['k']
+            where = ('%d' % kk if kk in (BLOCK - 1, BLOCK, BLOCK + 1, 2 * BLOCK - 1, 2 * BLOCK, 2 * BLOCK + 1, 3 * BLOCK) else
+                     'length-1' if kk == len(st['new']) - 1 else 'length' if kk == len(st['new']) else None)
+            if where and nb in (1, 2, 3):
+                cl.add('refusal at k=%s of a rewrite of %d stdio block(s)' % (where, nb))
+    n = max(0, final.count(b'\n') - 1) if final.startswith(HDR) else None
+    if n in COUNT_CLASSES:
+        cl.add('reads (first, last, -n, -(n+1), n+1, by name) on a file of %d rows' % n)
+    if tokens_max(final) > MODEL_FIELD_CAP:
+        cl.add('model capped: file with a field above %d bytes is judged by the dictionary oracle only' % MODEL_FIELD_CAP)
+    return cl
+
+
+def full_row(rng, i, name=None, **kw):
+    kvs = [b'name=' + (name if name is not None else b'row%d' % i), b'exit=' + rng.choice([b'0', b'1']), b'duration=%d' % rng.randint(0, 99),
+           b'user=root', b'time=17000000%02d' % rng.randint(0, 99)]
+    for k, v in kw.items():
+        kvs = [x for x in kvs if not x.startswith(k.encode() + b'=')] + [k.encode() + b'=' + v]
+    rng.shuffle(kvs)
+    return kvs
+
+
+def gen_boundary(rng):
+    """one history of a boundary class (see the comment above LENS)"""
+    c = rng.choice(['length', 'length', 'rows', 'ids', 'ids-start', 'names', 'names', 'block-read', 'block-refuse', 'block-refuse', 'keys', 'positions'])
+    h = {'start': '', 'writes': [], 'fault_at': -1}
+    if c == 'length':
+        ln = rng.choice(LENS + [1, 254, 255, 256, 1023, 1024, 1025, 4095, 4096, 4097])       # the cheap ones more often
+        f = rng.choice(STRF)
+        ws = [W(1, full_row(rng, 1))]
+        how = rng.random()
+        if how < 0.15:
+            # a key / an argument without '=' / an id argument of that length: all must be refused (or read as the number they spell)
+            n2 = min(ln, 4097)
+            ws.append(W(2, full_row(rng, 2) + [rng.choice([b'k' * n2 + b'=v', b'k' * n2, b'name' + b'e' * n2 + b'=v'])]))
+            ws.append(W(b'0' * n2 + b'3', full_row(rng, 3)))
+            ws.append(W(4, full_row(rng, 4, exit=b'0' * n2 + b'7')))
+        elif how < 0.55:
+            ws.append(W(2, full_row(rng, 2, **{f: pattern(ln)})))                        # a new row with the long value
+        else:
+            ws.append(W(2, full_row(rng, 2)))
+            ws.append(W(2, [f.encode() + b'=' + pattern(ln)]))                            # a partial update with the long value
+        if ln <= MODEL_FIELD_CAP and rng.random() < 0.6:
+            ws.append(W(3, full_row(rng, 3)))                                             # parsed and written back by a later command
+            if rng.random() < 0.5:
+                ws.append(W(2, [b'exit=3']))
+        if rng.random() < 0.3 and ln <= MODEL_FIELD_CAP:
+            h['fault_at'], h['fault_k'] = len(ws) - 1, rng.choice([ln - 1, ln, ln + 1, BLOCK, {'short': 1}, {'short': 0}])
+        h['writes'] = ws
+        h['read_names'] = [pattern(ln).hex(), pattern(ln)[:-1].hex()] if f == 'name' and ln <= 4097 else []
+    elif c == 'rows':
+        n = rng.choice(ROW_COUNTS + [15, 16, 17, 31, 32, 33, 63, 64, 65])
+        ids = list(range(1, n + 1))
+        o = rng.random()
+        if o < 0.3:
+            ids.reverse()
+        elif o < 0.6:
+            rng.shuffle(ids)
+        ws = [W(i, mkkvs(i)) for i in ids]
+        for _ in range(rng.randint(1, 4)):
+            t = rng.choice([1, n, n // 2, n + 1, n + 2, 16, 17, 32, 33])
+            ws.append(W(t, [rng.choice([b'exit=1', b'log=x.log', b'name=renamed%d' % t])] if t <= n and rng.random() < 0.7 else mkkvs(t)))
+        h['writes'] = ws
+        h['read_names'] = [b'step-number-1'.hex(), (b'step-number-%d' % n).hex(), (b'step-number-%d' % (n // 2)).hex(), (b'step-number-%d' % (n + 1)).hex()]
+        h['read_pos'] = [15, 16, 17, 31, 32, 33, 63, 64, 65, 255, 256, 257]
+        if rng.random() < 0.25:
+            h['fault_at'], h['fault_k'] = len(ws) - 1, rng.choice([{'rows': n - 1}, {'rows': 16}, {'short': 1}, BLOCK, 0])
+    elif c == 'ids':
+        a, b = rng.choice(PAIR_IDS)
+        ids = [a, b] + rng.sample([1, 2, -1, 7, 2147483647, -2147483647, 1073741824, -1073741824, 65536, -65536], rng.randint(0, 3))
+        rng.shuffle(ids)
+        ws = [W(i, full_row(rng, abs(i) % 1000, name=b'id%d' % i)) for i in ids]
+        ws.append(W(rng.choice(ids), [b'exit=2']))
+        h['writes'] = ws
+        h['read_names'] = [(b'id%d' % a).hex(), (b'id%d' % b).hex()]
+    elif c == 'ids-start':
+        ids = rng.choice(START_IDS)
+        h['start'] = (HDR + b''.join(mkrow(i, b'id%d' % i) for i in ids)).hex()
+        low = [i & 0xffffffff for i in ids]
+        ws = []
+        for _ in range(rng.randint(1, 3)):
+            t = rng.choice([x if x < 2 ** 31 else x - 2 ** 32 for x in low] + [1, 2, 3])
+            if t == 0:
+                t = 1
+            ws.append(W(t, full_row(rng, 1, name=b'w%d' % t) if rng.random() < 0.7 else [b'exit=3']))
+        h['writes'] = ws
+        h['read_names'] = [(b'id%d' % ids[0]).hex(), (b'id%d' % ids[-1]).hex()]
+    elif c == 'names':
+        fam = rng.sample(NAME_FAMILY, rng.randint(2, 5))
+        if rng.random() < 0.5 and b'one' not in fam:
+            fam.append(b'one')
+        ids = rng.sample(range(1, 9), len(fam))
+        ws = [W(i, full_row(rng, i, name=nm)) for i, nm in zip(ids, fam)]
+        if rng.random() < 0.4:
+            ws.append(W(9, full_row(rng, 9, name=rng.choice(fam))))      # the same name twice: the lower id is read
+        h['writes'] = ws
+        h['read_names'] = [x.hex() for x in rng.sample(NAME_FAMILY, 5) + rng.sample(NAME_PROBES, 2) + [rng.choice(fam)[:-1], rng.choice(fam) + b'e']]
+    elif c == 'block-read':
+        # the file read by the commands ends / has a row boundary exactly at a stdio block boundary (built from the empty file, so
+        # that the dictionary oracle judges every write and read)
+        m = rng.choice([BLOCK - 1, BLOCK, BLOCK + 1, 2 * BLOCK - 1, 2 * BLOCK, 2 * BLOCK + 1])
+        total = rng.choice([m, m, m + rng.randint(150, 600)])
+        rows = sized_rows([m], total, rowlen=rng.choice([120, 160, 200]))
+        ws = [W(i, mkkvs(i, n_, l_)) for i, n_, l_ in rows]
+        last = rows[-1][0]
+        ws.append(W(rng.choice([1, last, last + 1]), mkkvs(last + 1) if rng.random() < 0.5 else [b'exit=1']))
+        h['writes'] = ws
+    elif c == 'block-refuse':
+        # seeded/C01-2 (fwrite(ptr, 1, len, fh) with the `n < 1` test kept): a rewrite of 1, 2 or 3 stdio blocks refused at a block
+        # boundary, next to it, and one byte before the end
+        nb = rng.choice([1, 2, 3])
+        total = rng.choice([nb * BLOCK, nb * BLOCK - 1, nb * BLOCK - rng.randint(2, 2000), (nb - 1) * BLOCK + 1, (nb - 1) * BLOCK + rng.randint(2, 300)])
+        total = max(total, 400)
+        h['start'] = sized_file([x for x in (BLOCK, 2 * BLOCK) if x + 200 < total and rng.random() < 0.5], total, rowlen=rng.choice([60, 120, 200])).hex()
+        nrows = bytes.fromhex(h['start']).count(b'\n') - 1
+        h['writes'] = [W(rng.choice([1, nrows, max(1, nrows // 2)]), [rng.choice([b'exit=1', b'exit=0', b'skip=1'])])]     # the new content keeps the length
+        h['fault_at'] = 0
+        h['fault_k'] = rng.choice([BLOCK - 1, BLOCK, BLOCK + 1, 2 * BLOCK - 1, 2 * BLOCK, 2 * BLOCK + 1, 3 * BLOCK, {'short': 1}, {'short': 1}, {'short': 0}])
+    elif c == 'keys':
+        ws = [W(1, full_row(rng, 1))]
+        for i in range(2, rng.randint(3, 6)):
+            kvs = full_row(rng, i, name=rng.choice([b'x=y', b'=', b'a=b=c', b'name=one', b'=x']))
+            r = rng.random()
+            if r < 0.5:
+                kvs.insert(rng.randint(0, len(kvs)), rng.choice(BAD_KEYS))
+            elif r < 0.7:
+                kvs.append(b'log=')
+            ws.append(W(i, kvs))
+        ws.append(W(1, [rng.choice(BAD_KEYS)]))
+        h['writes'] = ws
+    else:   # positions
+        n = rng.randint(1, 5)
+        h['writes'] = [W(i, full_row(rng, i)) for i in range(1, n + 1)]
+        h['read_pos'] = rng.sample([0, 2147483647, -2147483647, 2147483646, 1000000, -1000000, 65536, -65536, 4, -4, 6, -6], 5)
+    return h
+
+P_BOUNDARY = 0.12
+
+
 def gen_history(rng):
+    if rng.random() < P_BOUNDARY:
+        return gen_boundary(rng)
     start = rng.choice(START_FILES)
     n = rng.choice([1, 2, 3, 4, 6, 8, 12])
     known = set()
@@ -96,6 +515,10 @@ def gen_history(rng):
         ws.append([idarg.hex(), [kv.hex() for kv in kvs]])
         known.add(idarg.strip().lstrip(b'+').lstrip(b'0') or b'0')
     fault = rng.random() < 0.12
+    if len(set(file_ids(start))) != len(file_ids(start)):
+        # rows of one id: their order after qsort is libc's (the model's insertion sort reverses them), which the comparison evens out
+        # for complete files only - the bytes of a CUT rewrite depend on it, so no refusal is injected on such a starting file
+        fault = False
     h = {'start': start.hex(), 'writes': ws, 'fault_at': (rng.randrange(n) if fault else -1)}
     if fault:
         # the file system accepts only the first k bytes of the rewrite: nothing, a piece of the header, the header,
@@ -206,7 +629,8 @@ def names_of(h):
             b = bytes.fromhex(k)
             if b.startswith(b'name=') and argv_ok(b) and b[5:] and b[5:] not in out:
                 out.append(b[5:])
-    return (out[:3] + [b'one'])[:4]
+    extra = [bytes.fromhex(x) for x in h.get('read_names', [])]
+    return (out[:3] + [b'one'])[:4] + [x for x in extra if argv_ok(x)]
 
 
 def run_history(impl, tool, work, idx, h):
@@ -227,8 +651,11 @@ def run_history(impl, tool, work, idx, h):
         steps.append({'before': before, 'rc': rc, 'after': after, 'fault': fault, 'k': k, 'new': new, 'stderr': err[-200:]})
     final = open(path, 'rb').read()
     reads = []
-    for pos in (1, 2, 3, -1, -2, 5, -5):
-        for f in (FIELDS if pos in (1, -1) else ['step', 'name', 'log']):
+    nrows = max(0, final.count(b'\n') - 1)
+    # the last row from the front and from the back, and the first position beyond the rows on either side
+    rel = [p for p in (nrows, nrows + 1, -nrows, -(nrows + 1)) if p not in (0, 1, 2, 3, -1, -2, 5, -5)]
+    for pos in [1, 2, 3, -1, -2, 5, -5] + sorted(set(rel + [p for p in h.get('read_pos', []) if p not in (1, 2, 3, -1, -2, 5, -5)])):
+        for f in (FIELDS if pos in (1, -1) else ['step', 'name', 'log'] if pos in (2, 3, -2, 5, -5) else ['step', 'name'] if abs(pos) == nrows else ['step']):
             rc, out = sh_read(impl, path, '-i', str(pos), ('${%s}\n' % f).encode())
             reads.append((pos, f, rc, out))
     byname = []
@@ -279,8 +706,22 @@ def evaluate(ctx, hs, res):
     qs = []
     index = []
     for hi, (h, (steps, final, reads, byname)) in enumerate(zip(hs, obs)):
+        for c_ in sorted(classes_of(h, steps, final)):
+            res.count('class: ' + c_)
+        final_max = tokens_max(final)
         for i, st in enumerate(steps):
             idh, kvh = h['writes'][i]
+            if max(tokens_max(st['before']), tokens_max(st['after']) if st['fault'] else 0) > MODEL_FIELD_CAP:
+                # the model's lexer is quadratic in the length of a field (see MODEL_FIELD_CAP): this write is judged by the oracle only
+                res.count('model capped: write on a file with a field above %d bytes not replayed on the model' % MODEL_FIELD_CAP)
+                res.evaluations += 1
+                if st['rc'] not in (0, 1):
+                    res.oracle_failures.append({'case': {'history': h, 'step': i}, 'signature': 'abnormal-termination',
+                                                'what': 'robsd-step -W terminated with status %d' % st['rc']})
+                if st['rc'] != 0 and st['after'] != st['before'] and not st['fault']:
+                    res.oracle_failures.append({'case': {'history': h, 'step': i}, 'signature': 'rejected-write-changed-file',
+                                                'what': 'write exited %d and changed the file' % st['rc']})
+                continue
             qs.append(' '.join(['writek', str(st['k']) if st['fault'] else '-', hexs(st['before']), idh or '-', str(len(kvh))] + [k or '-' for k in kvh]))
             index.append(('w', hi, i))
             if st['fault']:
@@ -294,12 +735,37 @@ def evaluate(ctx, hs, res):
                 index.append(('cb', hi, i))
                 qs.append('canon ' + hexs(st['after']))
                 index.append(('ca', hi, i))
+            elif h['start'] != '':
+                # a write on a hand-made starting file (the dictionary oracle below needs a history from the empty file): the rows the
+                # model reads from the file before and after, and the dictionary specification's verdict on the same arguments for an
+                # id the file does not hold (a new row: spec_write then depends on nothing else that is in the file)
+                qs.append('canon ' + hexs(st['before']))
+                index.append(('scb', hi, i))
+                qs.append('canon ' + hexs(st['after']))
+                index.append(('sca', hi, i))
+                qs.append(' '.join(['hist', '1', idh or '-', '1', str(len(kvh))] + [k or '-' for k in kvh] + ['0']))
+                index.append(('snew', hi, i))
+        nrows_final = max(0, final.count(b'\n') - 1)
+        light_done = set()
         for (pos, f, rc, out) in reads:
+            if pos > MODEL_POS_CAP:
+                # Z.to_nat (pos - 1) in select_row / spec_read: not computed; with fewer rows than that the command must fail
+                res.evaluations += 1
+                res.count('model capped: read at a position above %d compared with the fixed answer (exit 1, no output)' % MODEL_POS_CAP)
+                if nrows_final < pos and (rc, out) != (1, b''):
+                    res.disagreements.append({'case': {'history': h, 'read': [pos, f]}, 'model': '1 - (not computed: the file has %d rows)' % nrows_final,
+                                              'impl': '%d %s' % (rc, hexs(out))})
+                continue
+            if final_max > MODEL_FIELD_CAP or (final_max > MODEL_LIGHT and not (pos in (1, -1, 2) and f in ('name', 'log'))) or (final_max > MODEL_LIGHT2 and pos != 2):
+                continue
             qs.append(' '.join(['read', hexs(final), 'i', str(pos).encode().hex(), ('${%s}\n' % f).encode().hex()]))
             index.append(('r', hi, (pos, f, rc, out)))
-        for (nm, rc, out, rc1, out1) in byname:
-            qs.append(' '.join(['read', hexs(final), 'n', nm.hex(), b'${step}:${name}:${exit}\n'.hex()]))
+        for ni, (nm, rc, out, rc1, out1) in enumerate(byname):
+            if final_max > MODEL_FIELD_CAP or (final_max > MODEL_LIGHT and ni > 0):
+                continue
+            qs.append(' '.join(['read', hexs(final), 'n', nm.hex() or '-', b'${step}:${name}:${exit}\n'.hex()]))
             index.append(('n', hi, (nm, rc, out)))
+        oreads = [r_ for r_ in reads if r_[0] <= MODEL_POS_CAP]
         # a history with a refused write: the two-sided agreement on the writes BEFORE the refusal is still judged
         if h['start'] == '' and any(s_['fault'] for s_ in steps) and h['fault_at'] > 0:
             toks = ['hist', str(h['fault_at'])]
@@ -313,8 +779,8 @@ def evaluate(ctx, hs, res):
             toks = ['hist', str(len(steps))]
             for (idh, kvh), st in zip(h['writes'], steps):
                 toks += [idh or '-', '1' if st['rc'] == 0 else '0', str(len(kvh))] + [k or '-' for k in kvh]
-            toks.append(str(len(reads)))
-            for (pos, f, rc, out) in reads:
+            toks.append(str(len(oreads)))
+            for (pos, f, rc, out) in oreads:
                 toks += [str(pos), f.encode().hex(), hexs(out) if rc == 0 else '!']
             qs.append(' '.join(toks))
             index.append(('h', hi, None))
@@ -324,10 +790,10 @@ def evaluate(ctx, hs, res):
                 toks += [idh or '-', '1' if st['rc'] == 0 else '0', str(len(kvh))] + [k or '-' for k in kvh]
             toks.append(str(len(byname)))
             for (nm, rc, out, rc1, out1) in byname:
-                toks += [nm.hex(), b'step'.hex(), hexs(out1) if rc1 == 0 else '!']
+                toks += [nm.hex() or '-', b'step'.hex(), hexs(out1) if rc1 == 0 else '!']
             qs.append(' '.join(toks))
             index.append(('hn', hi, None))
-    ans = common.run_driver(drv, qs)
+    ans = run_driver_par(drv, qs)
     check_expectations(hs, obs, res)
     ids_before = {}
     for (kind, hi, info), a in zip(index, ans):
@@ -398,6 +864,12 @@ def evaluate(ctx, hs, res):
                                                 'what': 'a write under a refusing file system (first %s bytes accepted, new content %s bytes) exited %d and %s; the file is not '
                                                         'the first k bytes of the new content with k below its length, so this is not the known refusal damage'
                                                         % (st['k'], len(st['new']) if st['new'] is not None else 'none:', st['rc'], how)})
+        elif kind == 'scb':
+            ids_before[(hi, info, 'scb')] = a
+        elif kind == 'sca':
+            ids_before[(hi, info, 'sca')] = a
+        elif kind == 'snew':
+            start_file_oracle(h, info, steps[info], ids_before.get((hi, info, 'scb'), 'error'), ids_before.get((hi, info, 'sca'), 'error'), a, res)
         elif kind == 'r':
             pos, f, rc, out = info
             res.evaluations += 1
@@ -457,6 +929,80 @@ def evaluate(ctx, hs, res):
             if (ids != sorted(ids) or len(set(ids)) != len(ids)) and not renum and not any(s['fault'] for s in steps):
                 res.oracle_failures.append({'case': {'history': h}, 'signature': 'rows-not-ascending',
                                             'what': 'ids on disk: %s' % ids})
+
+
+def run_driver_par(drv, qs, n=6):
+    """the questions are independent of each other: several driver processes, the long questions (the costly ones) spread evenly"""
+    if len(qs) < 200:
+        return common.run_driver(drv, qs)
+    order = sorted(range(len(qs)), key=lambda i: -len(qs[i]))
+    bins, load = [[] for _ in range(n)], [0] * n
+    for i in order:
+        b = load.index(min(load))
+        bins[b].append(i)
+        load[b] += len(qs[i]) + 200
+    with ThreadPoolExecutor(n) as ex:
+        outs = list(ex.map(lambda b: common.run_driver(drv, [qs[i] for i in b]) if b else [], bins))
+    ans = [None] * len(qs)
+    for b, o in zip(bins, outs):
+        for i, a in zip(b, o):
+            ans[i] = a
+    return ans
+
+
+def canon_rows(a):
+    """'ok <hex>' of the driver's canon command -> [(id, row bytes)] in the order given, None when the file does not parse or a row cannot be serialised"""
+    if not a.startswith('ok') or a == 'ok !':
+        return None
+    body = common.unhex(a[3:]) if len(a) > 3 else b''
+    rows = []
+    for line in body.split(b'\n')[:-1]:
+        try:
+            rows.append((int(line.split(b',')[0]), line))
+        except ValueError:
+            return None
+    return rows
+
+
+def start_file_oracle(h, i, st, cb, ca, spec_new, res):
+    """ORACLE for a write on a hand-made starting file (no fault injected), in terms of the rows the model's reader finds in the file
+    before and after: an accepted write -i I leaves every row of another id unchanged, a row of id I, and the file in ascending id
+    order; a rejected write is judged by the existing rejected-write-changed-file.  For an id the file does not hold the write
+    creates a row, and whether it must be accepted is what the dictionary specification says about the same arguments on the empty
+    dictionary (spec_write looks at nothing but the row of that id)."""
+    before = canon_rows(cb)
+    if before is None:
+        return            # the starting file does not parse, or holds a row that cannot be written back: outside the quantifier
+    res.count('write on a hand-made starting file judged by the starting-file oracle')
+    idarg = bytes.fromhex(h['writes'][i][0])
+    try:
+        want = int(idarg.decode('ascii').strip(' \t\n\v\f\r'))
+    except (ValueError, UnicodeDecodeError):
+        want = None
+    accepts = spec_new.split(' ')[0] == '1'
+    if want is not None and want not in [r[0] for r in before] and '_' not in idarg.decode('ascii'):
+        if accepts and st['rc'] != 0:
+            res.oracle_failures.append({'case': {'history': h, 'step': i}, 'signature': 'acceptable-write-refused',
+                                        'what': 'write %d (a new row of id %d on a starting file holding ids %s) is accepted by the dictionary specification '
+                                                'but robsd-step -W exited %d' % (i, want, [r[0] for r in before][:8], st['rc'])})
+        if not accepts and st['rc'] == 0:
+            res.oracle_failures.append({'case': {'history': h, 'step': i}, 'signature': 'readback-differs-from-written',
+                                        'what': 'write %d (a new row of id %d on a starting file): robsd-step -W accepted what the specification rejects' % (i, want)})
+    if st['rc'] != 0 or want is None:
+        return
+    after = canon_rows(ca)
+    if after is None:
+        res.oracle_failures.append({'case': {'history': h, 'step': i}, 'signature': 'exit0-without-new-state',
+                                    'what': 'write %d exited 0 on a readable starting file and left a file that does not parse' % i})
+        return
+    ob, oa = sorted(r for r in before if r[0] != want), sorted(r for r in after if r[0] != want)
+    if ob != oa or not any(r[0] == want for r in after):
+        res.oracle_failures.append({'case': {'history': h, 'step': i}, 'signature': 'other-rows-changed',
+                                    'what': 'write %d (-i %d) exited 0; rows of other ids before: %s, after: %s; rows of id %d after: %d'
+                                            % (i, want, [r[0] for r in ob][:8], [r[0] for r in oa][:8], want, sum(1 for r in after if r[0] == want))})
+    disk = file_ids(st['after'])
+    if disk != sorted(disk):
+        res.oracle_failures.append({'case': {'history': h, 'step': i}, 'signature': 'rows-not-ascending', 'what': 'ids on disk after write %d: %s' % (i, disk[:12])})
 
 
 KILL_POINTS = ['step.before_truncate', 'step.after_truncate']
@@ -562,7 +1108,7 @@ def load_corpus():
         raise common.BuildFailure('corpus/C01 is missing or empty (%s): the replays of the repaired defects and of the known finding must run first' % d)
     out = []
     for p in paths:
-        h = json.load(open(p))
+        h = expand(json.load(open(p)))
         h['corpus'] = os.path.basename(p)
         for key in ('start', 'writes', 'fault_at'):
             if key not in h:
@@ -611,7 +1157,7 @@ def run(ctx, n=None):
                 'beyond +-INT_MAX) on empty and hand-made starting files; in ~12% of histories (and in the ~6% with a file of several stdio blocks) one write runs '
                 'on a file system that accepts only the first k bytes (k = 0, inside the header, inside a row, on a row boundary, at and around the 4096/8192 block '
                 'boundaries, all but the last byte, all), exit status and file bytes compared with the model; followed by reads of every field at 7 positions and '
-                'by up to 4 names, judged by the two-sided dictionary oracle; a lane in which the writer is terminated by SIGTERM at step.before_truncate / step.after_truncate (outside the quantifier: counted, the bytes left compared with the k=0 state of the fault model); non-trivial = started from the empty file with at least two accepted writes; distinct by content hash')
+                'by up to 4 names, judged by the two-sided dictionary oracle; a lane in which the writer is terminated by SIGTERM at step.before_truncate / step.after_truncate (outside the quantifier: counted, the bytes left compared with the k=0 state of the fault model); boundary classes (corpus/C01/b*.json first, then ~12% of the generated histories; `class:` lines of the input distribution): string values, keys and id arguments of 0, 1, 254-256, 1023-1025, 4095-4097, 8191-8193, 65535/65536 and 131000 bytes (model asked to parse fields up to 8193 bytes, the dictionary oracle judges the rest), 15-17 / 31-33 / 63-65 / 255-257 rows written one by one, integer columns at the 2^31 / 2^32 / 2^63 limits, ids 2^31 apart and (hand-made files) 2^32 apart, names and keys that are prefixes / extensions / case variants of each other, reads at n, n+1, -n, -(n+1), 0 and +-INT_MAX, hand-made starting files of 20 shapes (judged by the starting-file oracle: other rows unchanged, ascending order, the verdict of the specification for a new id), files and rows that end at 4095-4097 / 8191-8193 bytes, refusals at k = 4095, 4096, 4097, 8192, length-1 on rewrites of 1, 2 and 3 stdio blocks; non-trivial = started from the empty file with at least two accepted writes; distinct by content hash')
     n = n or ctx.budget(250, 8000)
     hs = [h for h in load_corpus() + [gen_history(ctx.rng) for _ in range(n)] if valid(h)]
     res.samples = hs[:2]
@@ -658,5 +1204,5 @@ def shrink(ctx, failure):
         r = common.Result()
         evaluate(ctx, [hh], r)
         return any(x.get('signature') == failure.get('signature') for x in r.oracle_failures)
-    small = common.ddmin(h['writes'], still, budget=30)
+    small = common.ddmin(h['writes'], still, budget=30 if len(h['writes']) <= 40 else 10)   # a 257-row history costs seconds per attempt
     return {'history': dict(h, writes=small, fault_at=-1 if h['fault_at'] < 0 else min(h['fault_at'], len(small) - 1))}
